@@ -89,7 +89,9 @@ def moments53(strength, x):
 
 def check_el(ctx, pc, h, p, w, L, tag, rng):
     use_w = rng.random() < 0.6
-    wit = {"N": len(h), "L": L, "class": tag, "wind": use_w, "h_dtype": str(h.dtype), "h_range": [float(h.min()), float(h.max())]}
+    if use_w and rng.random() < 0.3:
+        w = np.round(w).astype(np.int64) + 1          # integer-typed wind speeds
+    wit = {"N": len(h), "L": L, "class": tag, "wind": use_w, "h_dtype": str(h.dtype), "w_dtype": str(w.dtype), "h_range": [float(h.min()), float(h.max())]}
     ctx.case("equivalent_layers", key=(tag, L, use_w, float(np.sum(h * 1.0)), float(p.sum())), nontrivial=len(h) >= 3, sample=wit)
     if use_w:
         out = pure_call(ctx, "equivalent_layers", pc.equivalent_layers, h, p, L, w)
@@ -110,7 +112,7 @@ def check_el(ctx, pc, h, p, w, L, tag, rng):
         w_el = np.asarray(out[2], float)
         ctx.check(len(w_el) == L, "equivalent_layers:layer_count", "wind has %d layers" % len(w_el), wit)
         mw = moments53(p, w)
-        ctx.close("el_wind_moment", moments53(c_el, w_el), mw, 1e-11 * mw, "equivalent_layers:wind_moment", wit, scale=mw)
+        ctx.close("el_wind_moment", moments53(c_el, w_el), mw, 1e-11 * mw, "equivalent_layers:wind_moment" + (":int_wind" if w.dtype.kind in "iu" else ""), wit, scale=mw)
     # heights of non-empty layers increase
     hs = h_el[c_el > 0]
     ctx.check(bool(np.all(np.diff(hs) > 0)) if len(hs) > 1 else True, "equivalent_layers:order", "layer heights not increasing", wit)
@@ -215,7 +217,13 @@ def check_gctm(ctx, pc, rng, record):
     wit = {"N": N, "L": L, "kinds": kinds}
     ctx.case("GCTM", key=(N, L, float(hf.sum()), float(p.sum())), nontrivial=True, sample=wit)
     record.clear()
-    h_L, c_L = pure_call(ctx, "GCTM", pc.GCTM, h, p, L)
+    hs_, cs_ = 10000.0, 100e-15
+    if rng.random() < 0.4:                              # non-default scalings must only change the conditioning, not the result
+        hs_, cs_ = float(rng.choice([5000.0, 20000.0])), float(rng.choice([50e-15, 200e-15]))
+        h_L, c_L = pure_call(ctx, "GCTM", pc.GCTM, h, p, L, hs_, cs_)
+        wit = dict(wit, h_scaling=hs_, cn2_scaling=cs_)
+    else:
+        h_L, c_L = pure_call(ctx, "GCTM", pc.GCTM, h, p, L)
     ctx.check(len(h_L) == L and len(c_L) == L, "GCTM:layer_count", "returned %d/%d layers" % (len(h_L), len(c_L)), wit)
     ctx.check(bool(np.all(np.asarray(c_L) >= 0) and np.all(np.asarray(h_L) >= 0)), "GCTM:bounds", "negative strength or height", wit)
     if len(record) != 1:
@@ -233,13 +241,13 @@ def check_gctm(ctx, pc, rng, record):
     mom_out = np.array([(np.asarray(c_L) / 100e-15 * (np.asarray(h_L) / 10000.0) ** i).sum() for i in range(2 * L - 1)])
     relerr = float(np.abs(mom_out - mom_in).max() / np.abs(mom_in).max())
     ctx.metric("gctm_moment_relerr" + ("_success" if success else "_nosuccess"), relerr)
-    # the optimiser weights the high moments far more than moment 0 (heights are scaled to ~2.5, so h^6 ~ 250):
-    # total Cn2 errors of 4-15 % were observed on the unchanged tree with SciPy reporting convergence. Only a gross
-    # loss (half of the turbulence) is judged; the value is reported as a metric.
+    # The optimiser weights the high moments far more than moment 0 (scaled heights reach 2.5-5, so h^6 is 250-15000):
+    # total Cn2 errors of 4-15 % (default scalings) and up to 61 % (h_scaling = 5000) were observed on the unchanged tree
+    # with SciPy reporting convergence. "To optimiser accuracy" promises no more, so it is reported, not judged.
     ctx.metric("gctm_total_cn2_relerr", abs(mom_out[0] - mom_in[0]) / mom_in[0])
-    ctx.close("gctm_total_cn2", mom_out[0], mom_in[0], 0.5 * mom_in[0], "GCTM:total_cn2", wit, scale=mom_in[0])
+    bound = 0.1 if (hs_, cs_) == (10000.0, 100e-15) else 0.3
     if success:
-        ctx.check(relerr <= 0.1, "GCTM:moments", "moments reproduced to %.3g only (optimiser reported success)" % relerr, wit)
+        ctx.check(relerr <= bound, "GCTM:moments", "moments reproduced to %.3g only (optimiser reported success; bound %.1f)" % (relerr, bound), wit)
 
 
 def run(ctx, spec):
@@ -293,6 +301,17 @@ def run(ctx, spec):
             st = hostile_rng(rng, (i + L) % 4)
             ctx.count("global_rng_hostile_states")
             check_og(ctx, pc, h, p, L, R, "int_heights" if h.dtype.kind in "iu" else "float_heights", rng, st)
+    # larger regular profiles with equal strengths and several random restarts (the result must never be worse than the
+    # equal split, whichever restart came last)
+    if not nojit:
+        for i in range(2 if spec["n_og"] <= 8 else 12):
+            N = int(rng.integers(30, 80))
+            h = np.arange(N) * 250.0
+            p = np.ones(N) * 100e-17
+            L = int(rng.integers(3, 9))
+            st = hostile_rng(rng, int(rng.integers(0, 4)))
+            ctx.count("global_rng_hostile_states")
+            check_og(ctx, pc, h, p, L, int(rng.integers(2, 6)), "float_heights", rng, st)
     # ---- JIT differential on the cost kernel ----
     for i in range(40):
         N = int(rng.integers(2, 30))
